@@ -2,7 +2,7 @@
 From Coq Require Import Lia Sorting.Permutation String.
 From RM Require Import C13.Model C13.Proofs C13.Linux C13.ProofsLinux C13.ProofsLimits C13.Sites.
 From RM Require C12.Model C12.Proofs C13.Sched C13.ProofsSched.
-From RM Require Import C13.Adaptive C13.ProofsAdaptive C13.Budget C13.ProofsBudget.
+From RM Require Import C13.Adaptive C13.ProofsAdaptive C13.Budget C13.ProofsBudget C13.Cfi C13.ProofsCfi.
 Open Scope string_scope.
 Open Scope list_scope.
 Open Scope Z_scope.
@@ -311,6 +311,49 @@ Proof.
 Qed.
 Print Assumptions c13_frame_budget_refuted.
 
+(* ---- round 5: the order in which walk_with_stack_cfi applies the general-register rules *)
+(* whatever the walker does with a (name, rule) pair — aliases (x29/fp), failed rules that clear a register — the caller's
+   registers are the same for every iteration order of the rule HashMap, because the rules are sorted by name and the
+   map has one rule per name (cfi_map_nodup, proved of the map parse_cfi_exprs builds) *)
+Theorem c13_cfi_rule_order_independent :
+  forall (K E W : Type) (keqb ltb : K -> K -> bool),
+  (forall a b, keqb a b = true <-> a = b) ->
+  (forall a, ltb a a = false) ->
+  (forall a b c, ltb a b = true -> ltb b c = true -> ltb a c = true) ->
+  (forall a b, ltb a b = false -> ltb b a = false -> a = b) ->
+  forall (step : K -> E -> W -> W) (iter1 iter2 : list (K * E) -> list (K * E)) (written : list (K * E)) (w : W),
+  Permutation (iter1 (cfi_map keqb written)) (cfi_map keqb written) ->
+  Permutation (iter2 (cfi_map keqb written)) (cfi_map keqb written) ->
+  walk_cfi keqb ltb step iter1 written w = walk_cfi keqb ltb step iter2 written w.
+Proof.
+  intros K E W keqb ltb Hk Hi Ht Hto step iter1 iter2 written w.
+  exact (walk_cfi_order_independent keqb Hk ltb Hi Ht Hto step iter1 iter2 written w).
+Qed.
+Print Assumptions c13_cfi_rule_order_independent.
+
+(* the rule that is applied for a register is the LAST one written for it (INIT line first, then the delta lines) *)
+Theorem c13_cfi_last_rule_wins :
+  forall (K E : Type) (keqb : K -> K -> bool), (forall a b, keqb a b = true <-> a = b) ->
+  forall (written : list (K * E)) (k : K),
+  lookup keqb k (cfi_map keqb written) = lookup keqb k (rev written).
+Proof. intros K E keqb Hk written k. exact (cfi_map_last_wins keqb Hk written k). Qed.
+Print Assumptions c13_cfi_last_rule_wins.
+
+(* seeded C13-7 and its class: a sort key that is not unique (seq = map size: a re-definition shares its number with the
+   next new register) leaves tied rules in iteration order; with INIT `x29: 1`, delta `x29: 2 fp: 3` the caller's x29 is 3
+   under one iteration order and 2 under the other *)
+Theorem c13_cfi_seq_order_refuted :
+  exists (written : list (nat * nat)) (iter1 iter2 : list (nat * (nat * nat)) -> list (nat * (nat * nat))),
+  (forall m, Permutation (iter1 m) m) /\ (forall m, Permutation (iter2 m) m) /\
+  walk_cfi_seq Nat.eqb (alias_step arm64_slot) iter1 written (fun _ => None) 29%nat <>
+  walk_cfi_seq Nat.eqb (alias_step arm64_slot) iter2 written (fun _ => None) 29%nat.
+Proof.
+  exists [(29, 1); (29, 2); (129, 3)]%nat, (fun m => m), (@rev _).
+  split; [intros m; apply Permutation_refl|]. split; [intros m; apply Permutation_sym; apply Permutation_rev|].
+  destruct walk_cfi_seq_depends as [_ [A B]]. rewrite A, B. discriminate.
+Qed.
+Print Assumptions c13_cfi_seq_order_refuted.
+
 (* ---- round 5: every cell writable through a shared reference, and everything the per-thread future shares with its
    siblings, is one of the enumerated, classified sites *)
 Theorem c13_interior_mutable_sites_modelled :
@@ -418,3 +461,12 @@ Example c13_nonvacuous_post_walk :
   finish_threads budget_post 3 frames 5%nat [2; 0; 1]%nat = [Some [0]; Some [1]; Some [2; 2; 2; 2]]%nat /\
   finish_threads budget_post 3 frames 5%nat [0; 1; 2]%nat = [Some [0; 0]; Some [1; 1; 1]; Some [2]]%nat.
 Proof. cbv zeta. split; [intros s i f; reflexivity|]. repeat split. Qed.
+
+(* INIT `fp: 10 x19: 11 lr: 12`, delta `fp: 13 x29: 14` (names as numbers, fp = 129 and x29 = 29 one register): sorted by
+   name x29 is applied before fp whatever the map's iteration order *)
+Example c13_nonvacuous_cfi :
+  let written := [(129, 10); (19, 11); (130, 12); (129, 13); (29, 14)]%nat in
+  cfi_map Nat.eqb written = [(129, 13); (19, 11); (130, 12); (29, 14)]%nat /\
+  walk_cfi Nat.eqb Nat.ltb (alias_step arm64_slot) (fun m => m) written (fun _ => None) 29%nat = Some 13%nat /\
+  walk_cfi Nat.eqb Nat.ltb (alias_step arm64_slot) (@rev _) written (fun _ => None) 29%nat = Some 13%nat.
+Proof. cbv zeta. repeat split. Qed.
